@@ -46,6 +46,7 @@ import odxtools.database  # noqa: F401 -- imported here (run_check has selected 
 import odxtools.exceptions  # noqa: F401    children, in which all library code runs, need not import the library again
 import odxtools.nameditemlist  # noqa: F401
 import odxtools.odxlink  # noqa: F401
+import odxtools.writepdxfile  # noqa: F401
 from mcx.core import Ctx, Part, digest, isolated, jdump, pmap
 from odxmodel import emit_hier as eh
 from odxmodel import refinherit as ri
@@ -181,6 +182,17 @@ class Loader:
 
     def load(self, cases: List[Dict[str, Any]]) -> Any:
         return self.load_files(eh.database_files(cases))
+
+    def add_file(self, db: Any, name: str, xml: str) -> None:
+        """Add one more document to a loaded database (no refresh)."""
+        os.makedirs(self.dir, exist_ok=True)
+        p = os.path.join(self.dir, name)
+        with open(p, "w", encoding="utf-8") as f:
+            f.write(xml)
+        try:
+            db.add_odx_file(p)
+        finally:
+            os.unlink(p)
 
     def load_files(self, files: Dict[str, str], refresh: bool = True) -> Any:
         import odxtools.exceptions
@@ -1033,6 +1045,147 @@ def split_unit(unit: Tuple[Any, ...]) -> Part:
 
 
 # ---------------------------------------------------------------------------------------------
+# a parent layer's document is replaced by a new revision with the same IDs; PDX write + reload
+# ---------------------------------------------------------------------------------------------
+def replace_menu(case: Dict[str, Any]) -> List[List[Any]]:
+    """["replace-container", layer, name, new placement kind]: the document of a layer somebody references is
+    removed from the database and a revision in which one placement is toggled (absent <-> local) is added."""
+    referenced = sorted({p for ps in case["parents"] for p in ps})
+    return [["replace-container", p, ni, 0 if case["place"][p][ni] else 1] for p in referenced for ni in range(len(case["names"]))]
+
+
+def replace_problems(loader: Loader, case: Dict[str, Any], edit: List[Any], part: Optional[Part]) -> List[Tuple[str, str]]:
+    if any(p["conflicts"] for p in predict(case)):
+        return []
+    try:
+        db = loader.load_files(dict(eh.split_files(case, False)))
+    except Exception:  # noqa -- business of the split-container phase
+        return []
+    _, li, ni, kind = edit
+    ec = dict(case, place=[list(r) for r in case["place"]])
+    ec["place"][li][ni] = kind
+    if not any(ec["place"][i][ni] for i in range(len(ec["types"]))):
+        pass  # (the name vanishes altogether: fine, every view loses it)
+    preds = predict(ec)
+    lname = eh.layer_names(case)[li]
+    new_docs = dict(eh.split_files(ec, False))
+    db.diag_layer_containers.remove(db.diag_layer_containers["D_" + lname])
+    loader.add_file(db, "D_" + lname + ".odx-d", new_docs["D_" + lname + ".odx-d"])
+    n = len(case["types"])
+    try:
+        db.refresh()
+    except Exception as e:  # noqa
+        probs = judge_error(ec, preds, e, "")
+        outcome = "error"
+    else:
+        probs = judge_loaded(ec, preds, db, "", None)
+        outcome = "loaded"
+        if not probs and not any(p["conflicts"] for p in preds):
+            try:
+                fresh = full_observation(loader.load_files(new_docs), ec, "", list(range(n)))
+            except Exception:  # noqa
+                fresh = None
+            seen = full_observation(db, ec, "", list(range(n)))
+            if fresh is not None and seen != fresh:
+                i = next(i for i in range(n) if seen[i] != fresh[i])
+                cat = next(c for c in seen[i] if seen[i][c] != fresh[i][c])
+                probs.append((f"C09/differs-from-fresh-load/{cat}", f"layer {i} shows {seen[i][cat]}, a fresh load of the new documents {fresh[i][cat]}"))
+    if part is not None:
+        part.count("replace_container_evaluations")
+        part.count("replace_container_" + outcome)
+    return [("C09/replace-container/" + "/".join(k[len("C09/"):].split("/")[:3]),
+             f"after the document of layer {lname} was replaced by a revision ({edit}) and refresh(): {d}") for k, d in probs]
+
+
+def _replace_case(loader: Loader, case: Dict[str, Any], edit: List[Any]) -> Part:
+    part = Part()
+    for key, detail in replace_problems(loader, case, edit, part):
+        part.violation(key, {"mode": "replace", "case": case, "edit": edit}, detail)
+    return part
+
+
+def replace_unit(unit: Tuple[Any, ...]) -> Part:
+    types, parents, k, kinds = unit
+    part = Part()
+    loader = Loader()
+    try:
+        for case in configurations(types, parents, k, kinds, False, False):
+            if any(p["conflicts"] for p in predict(case)):
+                continue
+            for edit in replace_menu(case):
+                part.merge(isolated(_replace_case, loader, case, edit))
+    finally:
+        loader.close()
+    return part
+
+
+# the categories that NOT-INHERITED lists govern -- without the diag variables: on the tree under test the PDX writer
+# cannot write any layer that has DIAG-VARIABLES (the layer templates use the macro namespace `pdv` without importing
+# it: jinja2 UndefinedError), which is a defect of the writer (C11), not of value inheritance
+WRITE_CATS = ["svc", "job", "dop", "struct", "table", "gnr"]
+_WL = ["comms", "dops", "tables", "gnrs"]
+WRITE_LISTS = [[lst] for lst in _WL] + [list(_WL)]
+
+
+def write_problems(loader: Loader, case: Dict[str, Any], part: Optional[Part]) -> List[Tuple[str, str]]:
+    """Load, write_pdx_file(), load_pdx_file(): the reloaded database must show the views of the same model."""
+    import odxtools
+    from odxtools.writepdxfile import write_pdx_file
+    preds = predict(case)
+    if any(p["conflicts"] for p in preds):
+        return []
+    try:
+        db = loader.load([case])
+    except Exception:  # noqa -- business of the main phase
+        return []
+    if judge_loaded(case, preds, db, "", None):
+        return []  # (already wrong before writing: business of the main phase)
+    os.makedirs(loader.dir, exist_ok=True)
+    path = os.path.join(loader.dir, "roundtrip.pdx")
+    tag = "C09/write-reload/" + ("all-lists" if len(case["excl_lists"]) > 1 else case["excl_lists"][0]) + "/"
+    try:
+        try:
+            write_pdx_file(path, db)
+            db2 = odxtools.load_pdx_file(path)
+        finally:
+            if os.path.exists(path):
+                os.unlink(path)
+    except Exception as e:  # noqa
+        if part is not None:
+            part.count("write_reload_failed")
+        return [(tag + f"raises-{type(e).__name__}", f"write_pdx_file/load_pdx_file raised {type(e).__name__}: {str(e)[:300]}")]
+    probs = judge_loaded(case, preds, db2, "", None)
+    if part is not None:
+        part.count("write_reload_evaluations")
+    return [(tag + "/".join(k[len("C09/"):].split("/")[:3]), f"after write_pdx_file + load_pdx_file: {d}") for k, d in probs]
+
+
+def _write_case(loader: Loader, case: Dict[str, Any]) -> Part:
+    part = Part()
+    for key, detail in write_problems(loader, case, part):
+        part.violation(key, {"mode": "write", "case": case}, detail)
+    return part
+
+
+def write_unit(unit: Tuple[Any, ...]) -> Part:
+    types, parents, k, kinds = unit
+    part = Part()
+    loader = Loader()
+    try:
+        for case in configurations(types, parents, k, kinds, False, False):
+            if not case["excl"]:
+                continue
+            for lists in WRITE_LISTS:
+                c = dict(case, excl_lists=lists, cats=[x for x in WRITE_CATS if x in case["cats"]])
+                if c["cats"] and not any(p["conflicts"] for p in predict(c)):
+                    part.merge(isolated(_write_case, loader, c))
+                    part.add("write_lists", "+".join(lists))
+    finally:
+        loader.close()
+    return part
+
+
+# ---------------------------------------------------------------------------------------------
 # sequences: the outcome of an evaluation must not depend on earlier evaluations in the same process
 # ---------------------------------------------------------------------------------------------
 def _refresh_outcome(db: Any, case: Dict[str, Any]) -> Tuple[str, Any]:
@@ -1118,6 +1271,8 @@ def plan(quick: bool) -> Tuple[Any, ...]:
                    (2, 2, (0, 1, 4), False, True, 4)]
         sspaces = [(2, 1, (0, 1, 4)), (3, 1, (0, 1))]
         qspaces = [(3, 1, (0, 1, 2, 3, 4)), (3, 2, (0, 1)), (4, 1, (0, 1))]
+        cspaces = [(2, 1, (0, 1)), (3, 1, (0, 1))]
+        wspaces = [(2, 1, (0, 1))]
     else:
         spaces = [(1, 2, (0, 1, 2, 3), True, True, 1), (2, 2, (0, 1, 2, 3), True, True, 1), (3, 1, (0, 1, 2, 3), True, True, 2),
                   (3, 2, (0, 1, 2), False, False, 16), (4, 1, (0, 1, 2, 3), False, False, 4), (5, 1, (0, 1), False, False, 4)]
@@ -1128,6 +1283,8 @@ def plan(quick: bool) -> Tuple[Any, ...]:
                    (3, 2, (0, 1), False, False, None), (2, 2, (0, 1, 4), False, True, 4)]
         sspaces = [(2, 2, (0, 1, 3, 4)), (3, 1, (0, 1, 3, 4))]
         qspaces = [(3, 1, (0, 1, 2, 3, 4)), (3, 2, (0, 1)), (4, 1, (0, 1, 2))]
+        cspaces = [(2, 2, (0, 1)), (3, 1, (0, 1, 3, 4))]
+        wspaces = [(2, 2, (0, 1))]
     desc = []
     for n, k, kinds, skew, full, nsh in spaces:
         hs = ri.hierarchies(n)
@@ -1163,6 +1320,13 @@ def plan(quick: bool) -> Tuple[Any, ...]:
     for n, k, kinds in qspaces:
         for types, parents in ri.hierarchies(n):
             qunits.append((types, parents, k, kinds))
+    cunits = [(t, p, k, kinds) for n, k, kinds in cspaces for t, p in ri.hierarchies(n)]
+    wunits = [(t, p, k, kinds) for n, k, kinds in wspaces for t, p in ri.hierarchies(n)]
+    bounds["replace_container_phase"] = [f"{n} layers x {k} name(s), kinds {list(kinds)}: one document per layer; for every referenced "
+                                         f"layer and name the layer's document is removed and a revision with that placement toggled "
+                                         f"is added, then refresh()" for n, k, kinds in cspaces]
+    bounds["write_reload_phase"] = [f"{n} layers x {k} name(s), kinds {list(kinds)}: every case with exclusions x (each NOT-INHERITED "
+                                    f"list alone, all lists): write_pdx_file + load_pdx_file" for n, k, kinds in wspaces]
     bounds["sequence_phase"] = [f"{n} layers x {k} name(s), kinds {list(kinds)}: every case with a predicted unresolved clash, evaluated "
                                 f"twice in one process (refresh() again after the error; the same description in a second database)"
                                 for n, k, kinds in qspaces]
@@ -1183,12 +1347,12 @@ def plan(quick: bool) -> Tuple[Any, ...]:
     bounds["categories_core"] = eh.ALL_CATS
     bounds["categories_all"] = eh.FULL_CATS
     bounds["batch"] = BATCH
-    return units, punits, runits, sunits, qunits, bounds
+    return units, punits, runits, sunits, qunits, cunits, wunits, bounds
 
 
 def run(ctx: Ctx) -> None:
     Loader.sweep()
-    units, punits, runits, sunits, qunits, bounds = plan(ctx.quick)
+    units, punits, runits, sunits, qunits, cunits, wunits, bounds = plan(ctx.quick)
     ctx.bounds = bounds
     ctx.rule = ("every hierarchy (up to renaming of layers) within the layer bound x every placement of the names x every "
                 "NOT-INHERITED set; non-trivial = distinct (hierarchy, per-layer source of every visible object, exclusions, "
@@ -1209,9 +1373,12 @@ def run(ctx: Ctx) -> None:
     pmap(ctx, refresh_unit, runits)
     pmap(ctx, split_unit, sunits)
     pmap(ctx, sequence_unit, qunits)
+    pmap(ctx, replace_unit, cunits)
+    pmap(ctx, write_unit, wunits)
     c = ctx.counts
     c["evaluations"] = c.get("evaluations", 0) + c.get("parent_view_cases", 0) + c.get("refresh_evaluations", 0) + \
-        c.get("split_container_evaluations", 0) + c.get("sequence_evaluations", 0)
+        c.get("split_container_evaluations", 0) + c.get("sequence_evaluations", 0) + \
+        c.get("replace_container_evaluations", 0) + c.get("write_reload_evaluations", 0)
     only_h = ctx.sets.pop("esd_only_highest", set())
     only_l = ctx.sets.pop("esd_only_lowest", set())
     if only_h and only_l:
@@ -1240,8 +1407,12 @@ def run(ctx: Ctx) -> None:
               and c.get("split_container_error", 0) > 0)
     ctx.guard("a job overriding an inherited service of the same short name (and vice versa) seen",
               c.get("cross_kind_overrides", 0) > 0)
+    ctx.guard("replace-container phase ran; write-reload phase covered every NOT-INHERITED list alone",
+              c.get("replace_container_loaded", 0) > 0 and c.get("write_reload_evaluations", 0) > 0
+              and ctx.sets.get("write_lists", set()) == {"+".join(x) for x in WRITE_LISTS})
     ctx.guard("sequence phase: clash configurations evaluated twice in one process",
-              c.get("sequence_evaluations", 0) > 0 and c.get("sequence_first_error", 0) > 0)
+              c.get("sequence_evaluations", 0) + \
+        c.get("replace_container_evaluations", 0) + c.get("write_reload_evaluations", 0) > 0 and c.get("sequence_first_error", 0) > 0)
     ctx.guard("three-valued cases are a minority", c.get("three_valued_cases", 0) * 2 < max(1, c.get("hierarchies_loaded", 0)))
 
 
@@ -1255,6 +1426,10 @@ def _replay(case: Any) -> List[Tuple[str, str]]:
     try:
         if case.get("mode") == "sequence":
             return sequence_problems(loader, case["case"], None)
+        if case.get("mode") == "replace":
+            return replace_problems(loader, case["case"], case["edit"], None)
+        if case.get("mode") == "write":
+            return write_problems(loader, case["case"], None)
         if "batch" in case:
             cases = case["batch"]
             slot = case["slot"]
